@@ -58,6 +58,7 @@ theorem step_clock_past (ops : PriceOps P) (m : Market P) (o : Op P) :
   | tick f => exact absurd rfl (hnt f)
   | jump k f => exact absurd rfl (hnj k f)
   | setRunning b => exact ⟨rfl, rfl⟩
+  | setFund f => exact ⟨rfl, rfl⟩
 
 theorem tick_clock_past (ops : PriceOps P) (m : Market P) (f : Option P) :
     (m.tick ops f).1.past = m.cur :: m.past ∧ (m.tick ops f).1.time = m.time + 1 := by
